@@ -6,7 +6,9 @@ BatchPromote.node_ids is bounded by 1 (exact decision table of calculate_safe_ba
 (b) the proposal of a voter-set change is control dependent on some state that can tell whether an
 earlier configuration entry is still in flight; (c) one voter predicate everywhere: RaftMembership::voters
 keeps exactly status == Active (and replication_peers includes Active), the leader's voter count used to
-size a promotion is voters().len() + 1, and a promotion writes status Active.  Necessary conditions, not
+size a promotion is voters().len() + 1, and a promotion writes status Active; (d) the leader's cached configuration
+(ClusterMetadata, read by every commit-quorum computation) is rebuilt on every applied configuration change, on every
+non-error path.  Necessary conditions, not
 the whole behaviour (quorum intersection over all histories is not decided)."""
 from .common import *
 from .helpers_r3 import *
@@ -166,3 +168,60 @@ def run(ctx):
         s = XSlice(F, b).operand(agg_field(st, "new_status"))
         ctx.check("C26-c", "%s#BatchPromote.new_status" % fkey(F.root_of[b.id]), s.has_cname(r"NodeStatus::Active(::|$)"),
                   "promotion writes NodeStatus::Active (the status voters() selects)", "BatchPromote.new_status is not the constant NodeStatus::Active: %s" % sorted(x[1] for x in s.sources if x[0] == "cname"), loc(b, bi))
+
+
+# ---------------------------------------------------------------------------------------------- C26-d
+_run_abc26 = run
+
+
+def run(ctx):
+    _run_abc26(ctx)
+    leader_cache_refreshed(ctx)
+
+
+def leader_cache_refreshed(ctx):
+    """C26-d the leader's cached configuration (ClusterMetadata: replication_targets with their roles, total_voters,
+    single_voter - what calculate_new_commit_index / quorum_confirmed / is_voter read on every ACK) is rebuilt from the live
+    membership on EVERY applied configuration change: (1) handle_membership_applied reaches update_cluster_metadata on every
+    path; (2) update_cluster_metadata / init_cluster_metadata assign LeaderState.cluster_metadata on every path that returns Ok
+    - no early `return Ok(())` that keeps the cached roles (a promotion changes no peer id, only roles: a shortcut on 'same ids'
+    leaves the commit quorum at a majority of the OLD voter set while elections use the new one)."""
+    F = ctx.F
+    n = 0
+    for name in ("update_cluster_metadata", "init_cluster_metadata"):
+        f = F.try_method("LeaderState", name)
+        if f is None:
+            continue
+        mb = F.main_body(f)
+        writes = sorted(set(bi for (bi, si, st) in writes_to_field(mb, "LeaderState", "cluster_metadata")))
+        # a helper that assigns the field counts as the assignment
+        for (bi, t) in mb.calls():
+            for tg in F.resolve_targets(t):
+                if tg in F.bodies and tg != f.id and strip_generics(self_type_of(F, tg) or "").endswith("LeaderState") and \
+                        any(writes_to_field(gb, "LeaderState", "cluster_metadata") for gb in F.group_bodies(F.bodies[tg])):
+                    writes.append(bi)
+        n += 1
+        if not writes:
+            ctx.bad("C26-d", "%s#assigns-cluster_metadata" % fkey(f), "%s never assigns LeaderState.cluster_metadata" % name, "%s:%s" % (mb.file, mb.line))
+            continue
+        # error exits (`?` residuals, explicit Err results) may leave the cache alone; every other way out must have assigned it
+        errs = set(x for x, t in mb.calls() if "from_residual" in (callee_key(t) or ""))
+        errs |= set(bi for bi, blk in enumerate(mb.blocks) for st in blk["st"]
+                    if st.get("rv", {}).get("k") == "agg" and st["rv"].get("v") == "Err" and strip_generics(st["rv"].get("adt") or "").endswith("result::Result"))
+        wit = must_pass(mb, 0, [], writes + sorted(errs), treat_exit_as_goal=True)
+        ctx.check("C26-d", "%s#assigns-cluster_metadata-on-every-Ok-path" % fkey(f), wit is None,
+                  "every path that returns Ok has rebuilt ClusterMetadata from the membership it was given",
+                  "%s can return Ok without assigning LeaderState.cluster_metadata: the leader keeps counting commit quorums with the cached voter roles of the previous "
+                  "configuration (e.g. after BatchPromote[4,5] on {1,2,3} it still commits with 2 of {1,2,3} while {3,4,5} can elect a leader: disjoint quorums)" % name,
+                  "%s:%s" % (mb.file, mb.line), wit and bpath(mb, wit))
+    ctx.floor("C26-d", n, 2, "LeaderState::{update,init}_cluster_metadata")
+    hma = F.try_method("LeaderState", "handle_membership_applied")
+    if hma is not None:
+        mb = F.main_body(hma)
+        ups = [bi for (bi, t) in calls_matching(mb, r"LeaderState::update_cluster_metadata$")]
+        ctx.floor("C26-d", len(ups), 1, "update_cluster_metadata call in LeaderState::handle_membership_applied")
+        wit = must_pass(mb, 0, [], ups, treat_exit_as_goal=True) if ups else None
+        ctx.check("C26-d", "%s#refreshes-cache" % fkey(hma), bool(ups) and wit is None, "every applied configuration change refreshes the leader's cached configuration",
+                  "handle_membership_applied can finish without calling update_cluster_metadata", "%s:%s" % (mb.file, mb.line), wit and bpath(mb, wit))
+    else:
+        ctx.floor("C26-d", 0, 1, "LeaderState::handle_membership_applied")
